@@ -54,6 +54,7 @@ def instances(tier):
     out.append({"kind": "group_silence_reconnect", "gen": 4})
     for g in (4, 5):
         out.append({"kind": "flapping", "gen": g})
+        out.append({"kind": "held_commands", "gen": g})
     return out
 
 
@@ -74,6 +75,8 @@ def run(ctx, p):
         return _group_silence_reconnect(ctx, p)
     if p["kind"] == "flapping":
         return _flapping(ctx, p)
+    if p["kind"] == "held_commands":
+        return _held_commands(ctx, p)
     return _group_silence(ctx, p)
 
 
@@ -256,6 +259,54 @@ def _group_silence_reconnect(ctx, p):
         ok = len(reqs) == 4 and _b(sym_and(*[a == b for a, b in zip(reqs, exp)]))
         ctx.check(ok, "at4.group_poll_after_300s", detail={"requests": [str(t) for t in reqs], "expected": [str(t) for t in exp]})
         ctx.check(len(rig.net.conns) == 2 and not rig.task_failures(), "refresh.requests_first", detail="connections / task failure")
+    for lab in expect_labels("quick"):
+        ctx.reach(lab)
+
+
+def _held_commands(ctx, p):
+    """Commands were accepted during the outage (a solver-chosen number, up to the ten the buffer holds): the reconnection is
+    refreshed all the same - AC status and zone status are requested on the new connection at once, and the model converges."""
+    g = Gen(p["gen"])
+    inst = Installation.simple(g.n, n_acs=2, zones_per_ac=2)
+    n_held = (0, 1, 9, 10)[ctx.choice("held", 4)]
+    with ApiRig(ctx, g, inst) as rig:
+        con = rig.console
+        mode = {"accept": True}
+        rig.net.on_connect = lambda net, n: (("accept", 0) if mode["accept"] else ("refuse",))
+        rig.start()
+        rig.run(0.5)
+        ctx.check(rig.init_result is True, "refresh.requests_first", detail="handshake failed")
+        mode["accept"] = False
+        rig.loop.vt_call_at(1.0, lambda: rig.net.current().reset())
+        rig.run(1.25)
+        ac = rig.ac(0)
+
+        async def cmds():
+            for i in range(n_held):
+                try:
+                    await ac.set_target_temperature(20 + i % 6)
+                except Exception:  # noqa: BLE001
+                    pass
+
+        rig.spawn(cmds())
+        rig.run(2.0)
+        inst.zone_status[2] = (r4.build_group_status(2, 3, 0, 7, 1, 1, 9, 1, 555, 1) if g.n == 4 else r5.build_zone_status(2, 3, 0, 7, 33, 1, 555, 1, 1))
+        n0 = len(con.requests)
+        mode["accept"] = True
+        rig.run(6.5)
+        new = [(t, k) for t, k, _ in con.requests[n0:]]
+        kinds = [k for _, k in new]
+        detail = {"held": n_held, "kinds": kinds, "conns": len(rig.net.conns)}
+        ctx.observe("kinds", kinds[:14])
+        t_new = rig.net.conns[-1].opened_at
+        refresh = [(t, k) for t, k in new if k in ("ac_status", "zone_status")]
+        ctx.check(len(rig.net.conns) == 2 and sorted(k for _, k in refresh[:2]) == ["ac_status", "zone_status"] and all(_b(t == t_new) for t, _ in refresh[:2]),
+                  "refresh.requests_first", detail=detail)
+        ctx.check(kinds.count("ac_ctrl") == n_held, "refresh.requests_first", detail=dict(detail, why="held commands not transmitted once each"))
+        z2 = rig.zone(2)
+        ctx.check(z2.current_damper_percentage == 7 and z2.current_temperature == 5.5, "refresh.model_converges",
+                  detail=dict(detail, damper=str(z2.current_damper_percentage)))
+        ctx.check(not rig.task_failures(), "refresh.requests_first", detail="unhandled exception")
     for lab in expect_labels("quick"):
         ctx.reach(lab)
 
